@@ -11,7 +11,17 @@ def augment(r, ops):
     return out
 
 
+# per-protocol ghost-ownership theorems (every offered message is accepted, returned with the error, parked,
+# on the wire, queued or released - exactly one of them) proved over all histories in the protocol files
+EXTRA = {
+    "NngModel.Props.C06": ["Nng.C06.push_conservation", "Nng.C06.push_offered_partition", "Nng.C06.push_offered_exactly_once",
+                           "Nng.C06.push_completion_msgback", "Nng.C06.pull_conservation", "Nng.C06.pull_exactly_once"],
+    "NngModel.Props.C09": ["Nng.C09.B7_send_accounted", "Nng.C09.B7_closed_pipe_empty"],
+    "NngModel.Props.C17": ["Nng.C17.every_run_is_two_strings", "Nng.C17.dup_equal"],
+}
+
+
 def run(tier, seed, replay=None):
     return generic.run_generic(PROP, MODULES, "own-judge", tier, seed, replay, augment, 1500, 30000,
                                "event histories of every modelled protocol (providers in vlib/protos.py) ending with `fini` (close everything, nng_fini, "
-                               "accounting-allocator balance); ASan/UBSan/LSan build; judged by Spec/Generic.lean ownStep")
+                               "accounting-allocator balance); ASan/UBSan/LSan build; judged by Spec/Generic.lean ownStep", extra=EXTRA)
